@@ -70,6 +70,10 @@ def c15_snapshot(rng, kind, big=False):
     servers = topology(rng, max_servers=14 if big else 9, unique_racks=rng.random() < 0.8)
     has_ssd = {s[0]: rng.random() < 0.35 for s in servers}
     hot = {s[0]: rng.choice([1, 1, 1, 4, 10]) for s in servers}
+    pile = kind == "balance" and rng.random() < 0.3    # most volumes on two servers, room elsewhere: long plans
+    if pile:
+        for s in rng.sample(servers, min(2, len(servers))):
+            hot[s[0]] = 60
     reps = []
     nvol = rng.randint(2, 24 if big else 10)
     rps = RP_COMMON * 3 + RP_MORE
@@ -105,7 +109,7 @@ def c15_snapshot(rng, kind, big=False):
     cnt = {}
     for r in reps:
         cnt[(r["srv"], r["dt"])] = cnt.get((r["srv"], r["dt"]), 0) + 1
-    slack = [0, 0, 1, 1, 2, 6] if kind != "balance" else [0, 0, 1, 2, 4, 8]
+    slack = [0, 0, 1, 1, 2, 6] if kind != "balance" else ([2, 4, 8] if pile else [0, 0, 1, 2, 4, 8])
     srv = []
     for s in servers:
         srv.append({"id": s[0], "dc": s[1], "rack": s[2],
